@@ -295,11 +295,19 @@ func (x *Exec) runFrom(st *State, fr *Frame, b *ssa.BasicBlock, idx int, ret ret
 		case *ssa.If:
 			c := x.val(st, fr, in.Cond).T
 			if h := b.Index; fr.auto[h] && fr.iter[h] == 0 && !fr.inLoop[h] {
-				if x.feasible(st, c) && x.feasible(st, Not(c)) {
-					// the loop condition is symbolic: cut the loop with invariant true
+				if !c.isTrue() && !c.isFalse() {
+					// the loop condition is symbolic (not a literal after folding): cut the loop with
+					// invariant true plus the automatically derived counter bounds. Loops with a
+					// constant trip count fold to literals and are unrolled exactly instead.
+					for i, ai := range x.autoInvariants(st, fr, b, loopsOf(fr.fn)) {
+						x.check(st, ai, "invariant-entry", fmt.Sprintf("loop%d.auto#%d", loopsOf(fr.fn).headers[h], i+1), x.site(in.Pos()), "counter stays within its automatically derived bounds")
+					}
 					fr.inLoop[h] = true
 					x.note("loop without invariant cut with invariant true: loop " + fmt.Sprint(loopsOf(fr.fn).headers[h]) + " of " + fnRelName(fr.fn))
 					x.havocLoop(st, fr, b, loopsOf(fr.fn))
+					for _, ai := range x.autoInvariants(st, fr, b, loopsOf(fr.fn)) {
+						x.assume(st, ai, "auto invariant")
+					}
 					np := 0
 					for _, pi := range b.Instrs {
 						if _, ok := pi.(*ssa.Phi); !ok {
@@ -368,6 +376,7 @@ func (x *Exec) runFrom(st *State, fr *Frame, b *ssa.BasicBlock, idx int, ret ret
 			l := *addr.L
 			l.T = in.Val.Type()
 			x.frameCheck(st, &l, in.Pos())
+			x.markEscaped(st, v)
 			x.store(st, &l, v)
 		case *ssa.MapUpdate:
 			x.mapUpdate(st, fr, in)
@@ -502,7 +511,9 @@ func (x *Exec) evalValueInstr(st *State, fr *Frame, in ssa.Value) *Val {
 		fn := in.Fn.(*ssa.Function)
 		v := &Val{K: kFunc, Fn: fn, Typ: in.Type()}
 		for _, b := range in.Bindings {
-			v.Bind = append(v.Bind, x.val(st, fr, b))
+			bv := x.val(st, fr, b)
+			x.markEscaped(st, bv)
+			v.Bind = append(v.Bind, bv)
 		}
 		return v
 	case *ssa.MakeMap:
